@@ -60,6 +60,7 @@ type tgt struct {
 	b  bool
 	i  int
 	i8 int8
+	u8 uint8
 	f  float64
 	l  *starlark.List
 	d  *starlark.Dict
@@ -68,7 +69,7 @@ type tgt struct {
 }
 
 func newTgt() *tgt {
-	return &tgt{v: sentVal, s: "PREV", b: false, i: -777, i8: -77, f: -7.5, l: sentList, d: sentDict, c: sentFunc, it: sentIter}
+	return &tgt{v: sentVal, s: "PREV", b: false, i: -777, i8: -77, u8: 255, f: -7.5, l: sentList, d: sentDict, c: sentFunc, it: sentIter}
 }
 
 func (t *tgt) ptr(kind string) any {
@@ -83,6 +84,8 @@ func (t *tgt) ptr(kind string) any {
 		return &t.i
 	case "int8":
 		return &t.i8
+	case "uint8":
+		return &t.u8
 	case "float":
 		return &t.f
 	case "list":
@@ -182,6 +185,11 @@ func (t *tgt) read(kind string) *uArg {
 			return nil
 		}
 		return &uArg{T: "int", Z: strconv.Itoa(int(t.i8))}
+	case "uint8":
+		if t.u8 == 255 {
+			return nil
+		}
+		return &uArg{T: "int", Z: strconv.Itoa(int(t.u8))}
 	case "float":
 		if t.f == -7.5 {
 			return nil
@@ -235,12 +243,15 @@ func accepts(kind string, a uArg) bool {
 		return a.T == "string"
 	case "bool":
 		return a.T == "bool"
-	case "int", "int8":
+	case "int", "int8", "uint8":
 		if a.T != "int" {
 			return false
 		}
 		z, _ := new(big.Int).SetString(a.Z, 10)
 		lo, hi := big.NewInt(-128), big.NewInt(127)
+		if kind == "uint8" {
+			lo, hi = big.NewInt(0), big.NewInt(255)
+		}
 		if kind == "int" {
 			lo = new(big.Int).Neg(new(big.Int).Lsh(big.NewInt(1), 63))
 			hi = new(big.Int).Sub(new(big.Int).Lsh(big.NewInt(1), 63), big.NewInt(1))
@@ -462,7 +473,7 @@ func runPositional(thread *starlark.Thread, min int, kinds []string, args []uArg
 
 // ------------------------------------------------------------------- generator
 var argPool = []uArg{
-	{T: "none"}, {T: "bool"}, {T: "int", Z: "5"}, {T: "int", Z: "1000"}, {T: "int", Z: "1180591620717411303424"}, // 1<<70
+	{T: "none"}, {T: "bool"}, {T: "int", Z: "5"}, {T: "int", Z: "1000"}, {T: "int", Z: "-3"}, {T: "int", Z: "1180591620717411303424"}, // 1<<70
 	{T: "float"}, {T: "string"}, {T: "list"}, {T: "dict"}, {T: "tuple"}, {T: "func"},
 }
 
@@ -523,7 +534,7 @@ func unpackMain(argv []string) {
 	// all parameter lists
 	var lists [][]uParam
 	var rec func(cur []uParam)
-	allKinds := []string{"value", "int", "string", "bool", "list", "int8", "float", "dict", "callable", "iterable"}
+	allKinds := []string{"value", "int", "string", "bool", "list", "int8", "uint8", "float", "dict", "callable", "iterable"}
 	rec = func(cur []uParam) {
 		lists = append(lists, append([]uParam{}, cur...))
 		if len(cur) == 3 {
